@@ -1,5 +1,125 @@
+import Agd.Model.Serve
 import Agd.Driver.Util
-/-! Line-protocol driver for the C01 model (stub: not built yet). -/
+/-!
+Line-protocol driver for the C01 model.
+
+```
+serve <transport> <wok> <hdrhex|-> <unpacked> <id> <qr> <opcode> <rd> <cd> <nAn> <nNs> <edns> <ka>
+      <outcome…> q <nq> {<namehex> <qtype> <qclass>}
+  outcome: silent | wrote <rcode> <n> | failed <ne> | wrotefailed <rcode> <n> <ne>
+  → <status> <hid|-> <k> {| id opcode rcode rd cd nq {namehex qtype qclass} nans ede}
+accept <qr> <opcode> <nq> <nAn> <nNs>            → ignore|notimp|formerr|accept
+json <id> <nameBad> <namehex> <type> <qc> <cd> <do> <sde> <outcome…>
+  type/qc: - | <n> | bad ; cd/do/sde: - | 0 | 1 | bad
+  → <status> <k> {| status rd cd nq {namehex qtype} nans}
+quic <orig:0/1> <poolhex|-> <streamhex|->        → none | <payloadhex>
+```
+-/
 namespace Agd.Driver.C01
-def main : IO Unit := Agd.Driver.loop (fun (s : Unit) _ => (s, "bad-op")) ()
+open Agd.Serve Agd.Driver
+
+def hexVal (c : Char) : Nat :=
+  if '0' ≤ c ∧ c ≤ '9' then c.toNat - '0'.toNat
+  else if 'a' ≤ c ∧ c ≤ 'f' then c.toNat - 'a'.toNat + 10
+  else 0
+
+def hexBytes (s : String) : List Nat :=
+  let rec go : List Char → List Nat
+    | a :: b :: r => (hexVal a * 16 + hexVal b) :: go r
+    | _ => []
+  if s == "-" then [] else go s.toList
+
+def hexDigit (n : Nat) : Char :=
+  if n < 10 then Char.ofNat ('0'.toNat + n) else Char.ofNat ('a'.toNat + n - 10)
+
+def toHex (bs : List Nat) : String :=
+  if bs.isEmpty then "-" else String.ofList (bs.flatMap fun b => [hexDigit (b / 16 % 16), hexDigit (b % 16)])
+
+/-- Names travel as hex of their UTF-8 bytes; the model treats them as opaque tokens. -/
+def parseQs : Nat → List String → List Question
+  | 0, _ => []
+  | n + 1, nm :: qt :: qc :: r => { name := nm, qtype := nat! qt, qclass := nat! qc } :: parseQs n r
+  | _, _ => []
+
+def parseTransport : String → Option Transport
+  | "udp" => some .udp | "tcp" => some .tcp | "dot" => some .dot | "dohpost" => some .dohPost
+  | "dohget" => some .dohGet | "dohjson" => some .dohJSON | "doq" => some .doq
+  | "dcudp" => some .dnscryptUDP | "dctcp" => some .dnscryptTCP | _ => none
+
+/-- Parses an outcome, returns it with the remaining tokens. -/
+def parseOutcome (m : Msg) : List String → Option (Outcome × List String)
+  | "silent" :: r => some (.silent, r)
+  | "wrote" :: rc :: n :: r => some (.wrote (handlerResp m (nat! rc) (nat! n)), r)
+  | "failed" :: ne :: r => some (.failed (bool! ne), r)
+  | "wrotefailed" :: rc :: n :: ne :: r => some (.wroteFailed (handlerResp m (nat! rc) (nat! n)) (bool! ne), r)
+  | _ => none
+
+def outcomeLen : List String → Nat
+  | "silent" :: _ => 1 | "wrote" :: _ => 3 | "failed" :: _ => 2 | "wrotefailed" :: _ => 4 | _ => 0
+
+def showQ (q : Question) : String := s!"{q.name} {q.qtype} {q.qclass}"
+
+def showResp (r : Resp) : String :=
+  let qs := " ".intercalate (r.questions.map showQ)
+  let ede := match r.ede with | none => "-" | some e => toString e
+  s!"| {r.id} {r.opcode} {r.rcode} {showB r.rd} {showB r.cd} {r.questions.length} {qs} {r.answers.length} {ede}"
+
+def showSees (s : Sees) (hid : String) : String :=
+  s!"{s.status} {hid} {s.msgs.length} " ++ " ".intercalate (s.msgs.map showResp)
+
+def showAction : Action → String
+  | .ignore => "ignore" | .notimp => "notimp" | .formerr => "formerr" | .accept => "accept"
+
+def numParam : String → NumParam
+  | "-" => .absent | "bad" => .bad | s => .num (nat! s)
+
+def boolParam : String → BoolParam
+  | "-" => .absent | "bad" => .bad | s => .val (bool! s)
+
+def showJV (v : JSONView) : String :=
+  let qs := " ".intercalate (v.questions.map fun q => s!"{q.1} {q.2}")
+  s!"| {v.status} {showB v.rd} {showB v.cd} {v.questions.length} {qs} {v.answers.length}"
+
+def step (s : Unit) : List String → Unit × String
+  | "serve" :: t :: wok :: hdr :: unp :: id :: qr :: op :: rd :: cd :: nan :: nns :: edns :: ka :: rest =>
+    match parseTransport t with
+    | none => (s, "bad-op")
+    | some tr =>
+      let k := outcomeLen rest
+      match rest.drop k with
+      | "q" :: nq :: qtoks =>
+        let m : Msg := { id := nat! id, qr := bool! qr, opcode := nat! op, rd := bool! rd, cd := bool! cd,
+                         questions := parseQs (nat! nq) qtoks, nAn := nat! nan, nNs := nat! nns,
+                         edns := bool! edns, keepalive := bool! ka }
+        match parseOutcome m rest with
+        | none => (s, "bad-op")
+        | some (o, _) =>
+          let hid := match parseHdr (hexBytes hdr) with
+            | none => "-"
+            | some h => s!"{h.id}:{showB h.qr}:{h.opcode}:{showB h.rd}:{showB h.cd}:{h.qd}:{h.an}:{h.ns}"
+          (s, showSees (serveWire tr (if bool! unp then some m else none) o (bool! wok)) hid)
+      | _ => (s, "bad-op")
+  | ["accept", qr, op, nq, nan, nns] =>
+    let m : Msg := { id := 0, qr := bool! qr, opcode := nat! op, rd := false, cd := false,
+                     questions := List.replicate (nat! nq) { name := "", qtype := 1, qclass := 1 },
+                     nAn := nat! nan, nNs := nat! nns, edns := false, keepalive := false }
+    (s, showAction (acceptMsg m))
+  | "json" :: id :: nameBad :: name :: qt :: qc :: cd :: d :: sde :: rest =>
+    let j : JSONReq := { name := name, nameEmpty := bool! nameBad, qtype := numParam qt, qclass := numParam qc,
+                         cd := boolParam cd, do_ := boolParam d, sde := boolParam sde }
+    let m0 := (jsonToMsg j (nat! id)).getD
+      { id := 0, qr := false, opcode := 0, rd := false, cd := false, questions := [], nAn := 0, nNs := 0,
+        edns := false, keepalive := false }
+    match parseOutcome m0 rest with
+    | none => (s, "bad-op")
+    | some (o, _) =>
+      let r := serveJSON j (nat! id) o
+      (s, s!"{r.1} {r.2.length} " ++ " ".intercalate (r.2.map showJV))
+  | ["quic", orig, pool, stream] =>
+    let f := if bool! orig then quicPayloadOrig else quicPayload
+    (s, match f (hexBytes pool) (hexBytes stream) with | none => "none" | some p => toHex p)
+  | _ => (s, "bad-op")
+
+def main : IO Unit := loop step ()
+
 end Agd.Driver.C01
